@@ -1,5 +1,7 @@
 import HH.Neon
 import HH.Proofs.PortableSpec
+import HH.Proofs.X86Lemmas
+import Std.Tactic.BVDecide
 import Mathlib.Tactic.IntervalCases
 /-!
 # The NEON model refines the portable model (step lemmas, valid for ALL register states)
@@ -7,38 +9,69 @@ import Mathlib.Tactic.IntervalCases
 namespace HH
 namespace Neon
 
-@[simp] theorem lo64_mk (h l : BitVec 64) : lo64 (mk h l) = l := by unfold lo64 mk; bv_decide
-@[simp] theorem hi64_mk (h l : BitVec 64) : hi64 (mk h l) = h := by unfold hi64 mk; bv_decide
-theorem mk_lo_hi (r : BitVec 128) : mk (hi64 r) (lo64 r) = r := by unfold lo64 hi64 mk; bv_decide
-theorem ext128 (a b : BitVec 128) (h1 : lo64 a = lo64 b) (h2 : hi64 a = hi64 b) : a = b := by
-  rw [← mk_lo_hi a, ← mk_lo_hi b, h1, h2]
-@[simp] theorem lo64_eor (a b : BitVec 128) : lo64 (veorq_u64 a b) = lo64 a ^^^ lo64 b := by unfold lo64 veorq_u64; bv_decide
-@[simp] theorem hi64_eor (a b : BitVec 128) : hi64 (veorq_u64 a b) = hi64 a ^^^ hi64 b := by unfold hi64 veorq_u64; bv_decide
+/-! the register views of the NEON model are literally those of the x86 model: reuse its lane kit -/
+theorem lo64_eq (r : BitVec 128) : lo64 r = X86.lo64 r := rfl
+theorem hi64_eq (r : BitVec 128) : hi64 r = X86.hi64 r := rfl
+theorem mk_eq (h l : BitVec 64) : mk h l = X86.mk h l := rfl
+theorem mk32_eq (d c b a : BitVec 32) : mk32 d c b a = X86.mk32 d c b a := rfl
+theorem lane32_eq (r : BitVec 128) (i : Nat) : lane32 r i = X86.lane32 r i := rfl
+
+@[simp] theorem lo64_mk (h l : BitVec 64) : lo64 (mk h l) = l := X86.lo64_mk h l
+@[simp] theorem hi64_mk (h l : BitVec 64) : hi64 (mk h l) = h := X86.hi64_mk h l
+theorem mk_lo_hi (r : BitVec 128) : mk (hi64 r) (lo64 r) = r := X86.mk_lo_hi r
+theorem ext128 (a b : BitVec 128) (h1 : lo64 a = lo64 b) (h2 : hi64 a = hi64 b) : a = b := X86.ext128 a b h1 h2
+@[simp] theorem lo64_eor (a b : BitVec 128) : lo64 (veorq_u64 a b) = lo64 a ^^^ lo64 b := X86.lo64_xor a b
+@[simp] theorem hi64_eor (a b : BitVec 128) : hi64 (veorq_u64 a b) = hi64 a ^^^ hi64 b := X86.hi64_xor a b
 @[simp] theorem lo64_add (a b : BitVec 128) : lo64 (vaddq_u64 a b) = lo64 a + lo64 b := by simp [vaddq_u64]
 @[simp] theorem hi64_add (a b : BitVec 128) : hi64 (vaddq_u64 a b) = hi64 a + hi64 b := by simp [vaddq_u64]
 @[simp] theorem lo64_ld (e0 e1 : BitVec 64) : lo64 (vld1q_u64 e0 e1) = e0 := by simp [vld1q_u64]
 @[simp] theorem hi64_ld (e0 e1 : BitVec 64) : hi64 (vld1q_u64 e0 e1) = e1 := by simp [vld1q_u64]
 
+theorem narrow_lo (x y : BitVec 64) : ((x.setWidth 32 ++ y.setWidth 32 : BitVec 64).setWidth 32).setWidth 64 = y &&& 0xffffffff#64 := by bv_lsb
+theorem narrow_hi (x y : BitVec 64) : (((x.setWidth 32 ++ y.setWidth 32 : BitVec 64) >>> 32).setWidth 32).setWidth 64 = x &&& 0xffffffff#64 := by bv_lsb
+theorem shr32_mask (b : BitVec 64) : (b >>> 32) &&& 0xffffffff#64 = b >>> 32 := X86.shr32_low b
+
 theorem vmull_lanes (a b : BitVec 128) :
     vmull_u32 (vmovn_u64 a) (vshrn_n_u64 b 32) = mk (P.mul32 (hi64 a) (hi64 b)) (P.mul32 (lo64 a) (lo64 b)) := by
-  unfold vmull_u32 vmovn_u64 vshrn_n_u64 P.mul32 mk lo64 hi64
-  bv_decide
+  simp only [vmull_u32, vmovn_u64, vshrn_n_u64, P.mul32, narrow_lo, narrow_hi, shr32_mask]
 
 theorem vrev_rot (v : BitVec 128) : vrev64q_u32 v = mk ((hi64 v).rotateLeft 32) ((lo64 v).rotateLeft 32) := by
-  unfold vrev64q_u32 lane32 mk32 mk lo64 hi64
-  simp
-  bv_decide
+  have : vrev64q_u32 v = X86.shuffle_epi32 v 177 := by
+    simp only [vrev64q_u32, X86.shuffle_epi32, mk32_eq, lane32_eq, Nat.reduceShiftRight, Nat.reduceMod]
+  rw [this, X86.shuffle_epi32_rot]; rfl
 
+/-- USHL by a small non-negative count is a left shift; by `count - 32` (as i32) a right shift by `32 - count` -/
+theorem shLeft (n : Nat) (h : n < 32) : ((BitVec.ofNat 32 n).setWidth 8).toInt = (n : Int) := by
+  interval_cases n <;> decide
+theorem shRight (n : Nat) (h : n < 32) : ((BitVec.ofNat 32 (n + (2 ^ 32 - 32))).setWidth 8).toInt = (n : Int) - 32 := by
+  interval_cases n <;> decide
+theorem ushl_left (a : BitVec 32) (n : Nat) (h : n < 32) : ushl32 a (BitVec.ofNat 32 n) = a <<< n := by
+  have h1 : (n : Int) ≥ 0 := by omega
+  have h2 : ¬ (n : Int) ≥ 32 := by omega
+  simp only [ushl32, shLeft n h, h1, h2, ↓reduceIte, Int.toNat_natCast]
+theorem ushl_right (a : BitVec 32) (n : Nat) (h0 : n ≠ 0) (h : n < 32) :
+    ushl32 a (BitVec.ofNat 32 (n + (2 ^ 32 - 32))) = a >>> (32 - n) := by
+  have h1 : ¬ ((n : Int) - 32 ≥ 0) := by omega
+  have h2 : ¬ (-((n : Int) - 32) ≥ 32) := by omega
+  have h3 : (-((n : Int) - 32)).toNat = 32 - n := by omega
+  simp only [ushl32, shRight n h, h1, h2, ↓reduceIte, h3]
+theorem ushl_right0 (a : BitVec 32) : ushl32 a (BitVec.ofNat 32 (0 + (2 ^ 32 - 32))) = 0 := by
+  have : ((BitVec.ofNat 32 (0 + (2 ^ 32 - 32))).setWidth 8).toInt = -32 := by decide
+  simp only [ushl32, this]
+  simp
 end Neon
 
 namespace NeonB
 open Neon
 
+set_option maxRecDepth 100000 in
+set_option maxHeartbeats 2000000 in
 theorem zipper_lanes (v : BitVec 128) :
     zipperMerge v = mk (P.zipHi (hi64 v) (lo64 v)) (P.zipLo (hi64 v) (lo64 v)) := by
-  unfold zipperMerge vqtbl1q_u8 tblByte vld1q_u8 byteAt mk P.zipHi P.zipLo lo64 hi64 le64
-  simp
-  bv_decide
+  have hidx : vld1q_u8 [3, 12, 2, 5, 14, 1, 15, 0, 11, 4, 10, 13, 9, 6, 8, 7] 0 = 0x070806090D0A040B000F010E05020C03#128 := by decide
+  simp only [zipperMerge, hidx, vqtbl1q_u8, tblByte, byteAt, BitVec.reduceExtractLsb', BitVec.reduceToNat, Nat.reduceLT, ↓reduceIte, Nat.reduceMul]
+  unfold P.zipHi P.zipLo mk lo64 hi64
+  bv_bits
 
 def lanesOfRegs (pH pL : BitVec 128) : V4 := ⟨lo64 pL, hi64 pL, lo64 pH, hi64 pH⟩
 
@@ -108,11 +141,29 @@ theorem vsize_add (v : BitVec 128) (n : Nat) (h : n < 32) :
   · simp only [hi64_add, hi64_mk]; congr 1
     interval_cases n <;> decide
 
-set_option maxRecDepth 100000 in
+theorem lane32_dup (x : BitVec 32) (k : Nat) (hk : k < 4) : lane32 (vdupq_n_u32 x) k = x := by
+  have := X86.lane32_set1 x k hk
+  exact this
+
 theorem rotate32By_lanes (v : BitVec 128) (n : Nat) (h : n < 32) :
     rotate32By v n = mk (P.rot32Lane n (hi64 v)) (P.rot32Lane n (lo64 v)) := by
-  unfold rotate32By P.rot32Lane vshlq_u32 ushl32 vdupq_n_u32 vorrq_u64 lane32 mk32 mk lo64 hi64
-  interval_cases n <;> simp <;> bv_decide
+  have l0 := fun x => lane32_dup x 0 (by decide)
+  have l1 := fun x => lane32_dup x 1 (by decide)
+  have l2 := fun x => lane32_dup x 2 (by decide)
+  have l3 := fun x => lane32_dup x 3 (by decide)
+  by_cases h0 : n = 0
+  · subst h0
+    have hz : X86.mk32 (0 : BitVec 32) 0 0 0 = (0 : BitVec 128) := by decide
+    simp only [rotate32By, vshlq_u32, l0, l1, l2, l3, ushl_left _ 0 h, ushl_right0, BitVec.shiftLeft_zero, mk32_eq, lane32_eq, X86.mk32_lanes,
+      vorrq_u64, hz, X86.rot32Lane_zero, mk_eq, lo64_eq, hi64_eq, X86.mk_lo_hi]
+    simp
+  · simp only [rotate32By, vshlq_u32, l0, l1, l2, l3, ushl_left _ n h, ushl_right _ n h0 h, mk32_eq, lane32_eq, vorrq_u64]
+    have e : ∀ a b : BitVec 128, a ||| b = X86.or_si128 a b := fun _ _ => rfl
+    rw [e, X86.or_mk32]
+    have := X86.rot_mk32 v n h0 h
+    simp only [X86.rot32] at this
+    rw [this]; rfl
+
 
 theorem updateRemainder_refines (x : State) (hb : x.buffer.buf.length = 32) (hi : x.buffer.idx < 32) :
     toPortable (updateRemainder x) =
@@ -130,13 +181,33 @@ theorem finalizeCommon_refines (n : Nat) (x : State) (hx : x.buffer.Inv) :
   · simp [h0]
   · simp [h0, updateRemainder_refines x hb hi]
 
+theorem lo64_shr (a : BitVec 128) (k : Nat) : lo64 (vshrq_n_u64 a k) = lo64 a >>> k := by simp only [vshrq_n_u64, lo64_mk]
+theorem hi64_shr (a : BitVec 128) (k : Nat) : hi64 (vshrq_n_u64 a k) = hi64 a >>> k := by simp only [vshrq_n_u64, hi64_mk]
+theorem dup0 : vdupq_n_u8 0 = (0 : BitVec 128) := by decide
+theorem lo64_slli8 (a : BitVec 128) : lo64 (slli8 a) = 0 := by
+  simp only [slli8, vextq_u8, dup0, Nat.reduceMul, Nat.reduceSub, BitVec.zero_ushiftRight, BitVec.zero_or]
+  unfold lo64; bv_lsb
+theorem hi64_slli8 (a : BitVec 128) : hi64 (slli8 a) = lo64 a := by
+  simp only [slli8, vextq_u8, dup0, Nat.reduceMul, Nat.reduceSub, BitVec.zero_ushiftRight, BitVec.zero_or]
+  unfold lo64 hi64; bv_lsb
+theorem lo64_bic (a b : BitVec 128) : lo64 (vbicq_u64 a b) = lo64 a &&& ~~~(lo64 b) := by unfold lo64 vbicq_u64; bv_lsb
+theorem hi64_bic (a b : BitVec 128) : hi64 (vbicq_u64 a b) = hi64 a &&& ~~~(hi64 b) := by unfold hi64 vbicq_u64; bv_lsb
+theorem signBit_lo : lo64 (vsetq_lane_u32 0x80000000#32 (vdupq_n_u32 0) 3) = 0 := by decide
+theorem signBit_hi : hi64 (vsetq_lane_u32 0x80000000#32 (vdupq_n_u32 0) 3) = 0x8000000000000000#64 := by decide
+
+theorem modLaneN (xh xl ih il : BitVec 64) :
+    il ^^^ (xl <<< 2) ^^^ 0 ^^^ ((xl <<< 1) &&& ~~~(0 : BitVec 64)) ^^^ 0 = (P.moduleReduction xh xl ih il).1 ∧
+    ih ^^^ (xh <<< 2) ^^^ (xl >>> 62) ^^^ ((xh <<< 1) &&& ~~~(0x8000000000000000#64)) ^^^ (xl >>> 63) = (P.moduleReduction xh xl ih il).2 := by
+  unfold P.moduleReduction
+  constructor <;> bv_lsb
+
 theorem modularReduction_refines (x init : BitVec 128) :
     (lo64 (modularReduction x init), hi64 (modularReduction x init))
       = P.moduleReduction (hi64 x) (lo64 x) (hi64 init) (lo64 init) := by
-  unfold modularReduction P.moduleReduction andNot slli8 vextq_u8 vdupq_n_u8 vsetq_lane_u32 vdupq_n_u32 vshrq_n_u64 vaddq_u64
-    veorq_u64 vbicq_u64 lane32 mk32 mk lo64 hi64
-  simp
-  constructor <;> bv_decide
+  have a := modLaneN (hi64 x) (lo64 x) (hi64 init) (lo64 init)
+  simp only [modularReduction, andNot, lo64_eor, hi64_eor, lo64_slli8, hi64_slli8, lo64_shr, hi64_shr, lo64_bic, hi64_bic, lo64_add, hi64_add,
+    X86.add_self_shl, X86.shl1_shl1, signBit_lo, signBit_hi]
+  exact Prod.ext a.1 a.2
 
 theorem finalize64_refines (x : State) (hx : x.buffer.Inv) :
     finalize64 x = P.out64 (P.finAbs 4 (toPortable x.r, x.buffer.asSlice)) := by
